@@ -54,3 +54,8 @@ claim("C04", "model_checking",
       "For v3 NULL, v3 PLAIN, v2 (static) and CURVE/NOISE (live partner) transcripts of handshake + 3 messages (single, multipart with an empty frame, 300-byte frame), every segmentation in the stated family must deliver exactly the transcript's messages, at the engine and through Socket::recv() of a real socket whose session actor performs one read per chunk.",
       "E3 replaces only the kernel socket (in-memory duplex stream through verif::attach_stream, same steps as tcp.rs after accept/connect); real kernel coalescing, ipc and the io_uring handler are not reached here (C20 covers the io_uring handler differential)",
       "5/C04")
+claim("C01", "model_checking",
+      "E3: exhaustive enumeration of scenario scripts (all size tuples up to length 5 over boundary alphabets x batching options x HWM x SNDTIMEO x receiver pacing x first-send moment x link buffer size x socket pair x transport) executed on the whole real stack in deterministic paused-clock worlds; reference = list of accepted sends",
+      "Each world builds a context and two real sockets connected over the ZMTP session path (in-memory duplex streams attached through the tcp/ipc post-accept/connect code, behind a harness-owned link that can hold the handshake half-way and force partial writes) or over inproc, issues all sends back-to-back and receives per the pacing; the received sequence must equal the accepted sequence byte for byte, blocking sends must never fail or stay blocked, refused sends must be absent.",
+      "single-threaded deterministic runtime: interleavings are those the script dimensions expose (first-send moment, pacing, held handshake, 64-byte link buffer), not multi-thread schedules inside actors; kernel tcp/ipc sockets and TCP_CORK are not involved (C20's matrix binds the duplex path to real tcp); sizes from boundary alphabets (0..5000 for scaled-down limits, 100 KiB..1 MiB for default limits)",
+      "5/C01")
